@@ -265,6 +265,18 @@ let run clause_prefix path =
           | Some l' -> go l' rest
           | None -> report "client_in_order" q ("callback_not_for_the_packet_just_received " ^ event_kind e ^ " (trace scan)")) in
      go None evs);
+    (let rec go x = function
+       | [] -> (match x with
+                | TraceScan.RDue (q :: _) when quiescent_end ->
+                  report "resend_on_connect" "end" ("listed_packet_not_resent " ^ s_of_packet q ^ " (trace scan)")
+                | _ -> ())
+       | (q, e) :: rest ->
+         (match TraceScan.resend_step x e with
+          | Some x' -> go x' rest
+          | None ->
+            let due = match x with TraceScan.RDue (p :: _) -> s_of_packet p | _ -> "-" in
+            report "resend_on_connect" q ("listed_packet_not_resent due=" ^ due ^ " next_processor_event=" ^ event_kind e ^ " (trace scan)")) in
+     go TraceScan.RNone evs);
     if not (TraceScan.scan_noack false all_events) then begin
       let rec first acc = function
         | [] -> "?"
